@@ -265,8 +265,8 @@ func (p *Program) VerifyFuncRebinding(fi *FuncInfo, failures func([]*Obligation)
 		return res
 	}
 	locals := p.localNames(fi)
-	if len(locals) > 16 {
-		locals = locals[:16]
+	if len(locals) > 48 {
+		locals = locals[:48]
 	}
 	// candidate assignments: one local per missing name
 	var assigns []map[string]string
@@ -297,6 +297,9 @@ func (p *Program) VerifyFuncRebinding(fi *FuncInfo, failures func([]*Obligation)
 	}
 	build(0, map[string]string{})
 	tried := 0
+	var bestLocal map[string]string
+	bestLocalN := -1
+	bestLocalNote := ""
 	for _, as := range assigns {
 		fi.C.LocalRen = as
 		p.resetClauseChecks(fi.C)
@@ -308,15 +311,31 @@ func (p *Program) VerifyFuncRebinding(fi *FuncInfo, failures func([]*Obligation)
 		if tried > 8 {
 			break
 		}
-		if discharged(r2.Obligations) {
-			var parts []string
-			for k, v := range as {
-				parts = append(parts, k+" -> "+v)
-			}
-			sort.Strings(parts)
-			r2.Assumed = append(r2.Assumed, fmt.Sprintf("proof hints of %s name local variable(s) that no longer exist; rebound %s (accepted because every obligation of the function discharges with this binding; a wrong binding could only fail)", r2.Func, strings.Join(parts, ", ")))
+		nf := failures(r2.Obligations)
+		var parts []string
+		for k, v := range as {
+			parts = append(parts, k+" -> "+v)
+		}
+		sort.Strings(parts)
+		note := fmt.Sprintf("proof hints of %s name local variable(s) that no longer exist; rebound %s (a wrong binding could only fail)", r2.Func, strings.Join(parts, ", "))
+		if nf == 0 {
+			r2.Assumed = append(r2.Assumed, note)
 			return r2
 		}
+		if bestLocalN < 0 || nf < bestLocalN {
+			bestLocalN = nf
+			bestLocal = as
+			bestLocalNote = note
+		}
+	}
+	if bestLocal != nil {
+		// no binding discharges everything (the function may carry a listed open finding): report what fails under
+		// the best type-checking one - the hints as written do not apply to the function at all any more
+		fi.C.LocalRen = bestLocal
+		p.resetClauseChecks(fi.C)
+		r := p.VerifyFunc(fi)
+		r.Assumed = append(r.Assumed, bestLocalNote)
+		return r
 	}
 	fi.C.LocalRen = nil
 	p.resetClauseChecks(fi.C)
